@@ -24,7 +24,7 @@ func vBytesEq(a, b []byte) bool {
 // C13 (the UDP transport itself): two consecutive Send calls on one transport, each
 // with its own context deadline (40 ms or 150 ms after the start; the second may be the
 // earlier one) against a peer that either drops the datagram or answers after an
-// arbitrary delay: every Send returns by its own context's deadline (plus the
+// arbitrary delay of up to 100 ms (a 3-byte datagram, shorter than any RMCP header): every Send returns by its own context's deadline (plus the
 // allowance), a lost reply gives an error, and a returned reply is the peer's datagram.
 func VerifC13_TransportSend() {
 	conn := vUDPConn()
@@ -39,7 +39,7 @@ func VerifC13_TransportSend() {
 		ctx, cancel := context.WithDeadline(context.Background(), vInstant(dl))
 		kind := vChoice(2)
 		delay := int64(vU32()) * 1000
-		vAssume(delay <= 20*vMs)
+		vAssume(delay <= 100*vMs) // a reply that arrives after the deadline counts as lost
 		payload := vBytes(3)
 		vScriptReply(kind, delay, payload)
 		vWatchdog(dl+3*vAllowance, "c13-transport-send-returns-by-its-context's-deadline")
